@@ -12,7 +12,9 @@ package main
 // } else if … { err = g() …}; if err != nil {…}`) is treated alike: what is removed are paths that no execution takes.
 
 import (
+	"go/types"
 	"os"
+	"strings"
 	"go/constant"
 	"go/token"
 	"reflect"
@@ -39,6 +41,11 @@ func knownNonNil(v ssa.Value, pb *ssa.BasicBlock) bool {
 	case *ssa.Call:
 		switch CalleeKey(x) {
 		case "fmt.Errorf", "errors.New":
+			return true
+		}
+	case *ssa.UnOp:
+		// a sentinel: a package-level error variable that is set once, where it is declared
+		if g, isG := x.X.(*ssa.Global); isG && x.Op == token.MUL && sentinelGlobal(g) {
 			return true
 		}
 	}
@@ -122,8 +129,16 @@ func (p *Prog) threadInlinedResults() int {
 	if os.Getenv("SSTCHECK_NOTHREAD") != "" {
 		return 0
 	}
+	theProgFns = nil
+	sentinelGlobalCache = map[*ssa.Global]bool{}
+	for fn := range p.allFns {
+		if fn.Blocks != nil {
+			theProgFns = append(theProgFns, fn)
+		}
+	}
 	total := 0
 	for _, fn := range p.modFns {
+		foldDecidedNilTests(fn)
 		for changed := true; changed; {
 			changed = false
 			for _, b := range fn.Blocks {
@@ -388,6 +403,181 @@ func threadResultBlock(fn *ssa.Function, b *ssa.BasicBlock) bool {
 	dropRef(tested, cmp)
 	b.Instrs = append(b.Instrs[:n-2:n-2], newJump(b))
 	b.Succs = []*ssa.BasicBlock{nonNilSucc}
+	// a phi that is left with one edge is that value
+	if len(kp) == 1 {
+		var rest []ssa.Instruction
+		for _, ins := range b.Instrs {
+			ph, isP := ins.(*ssa.Phi)
+			if !isP || len(ph.Edges) != 1 || ph.Edges[0] == ssa.Value(ph) {
+				rest = append(rest, ins)
+				continue
+			}
+			v := ph.Edges[0]
+			if rr := ph.Referrers(); rr != nil {
+				for _, u := range *rr {
+					for _, op := range u.Operands(nil) {
+						if *op == ssa.Value(ph) {
+							*op = v
+							addRef(v, u)
+						}
+					}
+				}
+				*rr = nil
+			}
+			dropRef(v, ph)
+		}
+		b.Instrs = rest
+	}
 	_ = constant.MakeBool
 	return true
+}
+
+var sentinelGlobalCache = map[*ssa.Global]bool{}
+
+// sentinelGlobal: g is an error variable that is never nil once its package is initialised — outside the module by the
+// convention of the standard library's sentinels, inside the module when its only assignment is the errors.New /
+// fmt.Errorf of its declaration.
+func sentinelGlobal(g *ssa.Global) bool {
+	if v, ok := sentinelGlobalCache[g]; ok {
+		return v
+	}
+	res := false
+	defer func() { sentinelGlobalCache[g] = res }()
+	pt, ok := g.Type().(*types.Pointer)
+	if !ok || !isErrorType(pt.Elem()) || g.Pkg == nil {
+		return false
+	}
+	if !strings.HasPrefix(g.Pkg.Pkg.Path(), modPath) {
+		res = true
+		return res
+	}
+	if theProgFns == nil {
+		return false
+	}
+	inits, others := 0, 0
+	for _, fn := range theProgFns {
+		if fn.Pkg != g.Pkg {
+			continue
+		}
+		for _, b := range fn.Blocks {
+			for _, ins := range b.Instrs {
+				st, isS := ins.(*ssa.Store)
+				if !isS || st.Addr != ssa.Value(g) {
+					continue
+				}
+				c, isC := st.Val.(*ssa.Call)
+				if isC && fn.Name() == "init" && (CalleeKey(c) == "errors.New" || CalleeKey(c) == "fmt.Errorf") {
+					inits++
+				} else {
+					others++
+				}
+			}
+		}
+	}
+	res = inits == 1 && others == 0
+	return res
+}
+
+// theProgFns: every function with a body of the program being normalised (package initialisers included).
+var theProgFns []*ssa.Function
+
+// foldDecidedNilTests removes the edge a nil test cannot take because a dominating test of the same value (on a chain of
+// single predecessors) has decided it already: `if err != nil { r = err; if r != nil {A} else {B} }` never reaches B. The
+// block inliner writes such tests (every return of an error leaves on a "failed" and a "succeeded" way); by hand they are
+// rare, and removing an edge that no execution takes changes no verdict that was right.
+func foldDecidedNilTests(fn *ssa.Function) {
+	for _, b := range fn.Blocks {
+		n := len(b.Instrs)
+		if n == 0 || len(b.Succs) != 2 || b.Succs[0] == b.Succs[1] {
+			continue
+		}
+		iff, ok := b.Instrs[n-1].(*ssa.If)
+		if !ok {
+			continue
+		}
+		bo, ok := iff.Cond.(*ssa.BinOp)
+		if !ok || (bo.Op != token.NEQ && bo.Op != token.EQL) {
+			continue
+		}
+		var v ssa.Value
+		if isNilConst(bo.Y) {
+			v = bo.X
+		} else if isNilConst(bo.X) {
+			v = bo.Y
+		}
+		if v == nil {
+			continue
+		}
+		if _, isIface := v.Type().Underlying().(*types.Interface); !isIface {
+			continue
+		}
+		// decided on the way into b (b's own test is the one being folded)
+		nonNil, isNil := false, false
+		c := b
+		for step := 0; step < 16 && c != nil && len(c.Preds) == 1; step++ {
+			d := c.Preds[0]
+			switch edgeDecides(v, d, c) {
+			case 1:
+				nonNil = true
+			case -1:
+				isNil = true
+			}
+			if nonNil || isNil {
+				break
+			}
+			c = d
+		}
+		if !nonNil {
+			if _, isCall := v.(*ssa.Call); isCall && knownNonNil(v, nil) {
+				nonNil = true
+			}
+		}
+		if nonNil == isNil {
+			continue
+		}
+		takeTrue := (bo.Op == token.NEQ) == nonNil
+		keep, drop := b.Succs[0], b.Succs[1]
+		if !takeTrue {
+			keep, drop = drop, keep
+		}
+		// drop loses b among its predecessors (one occurrence), its phis lose that edge
+		j := -1
+		for x, tp := range drop.Preds {
+			if tp == b {
+				j = x
+				break
+			}
+		}
+		if j < 0 {
+			continue
+		}
+		for _, ins := range drop.Instrs {
+			ph, isP := ins.(*ssa.Phi)
+			if !isP {
+				break
+			}
+			e := ph.Edges[j]
+			ph.Edges = append(ph.Edges[:j:j], ph.Edges[j+1:]...)
+			still := false
+			for _, o := range ph.Edges {
+				if o == e {
+					still = true
+				}
+			}
+			if !still {
+				if rr := e.Referrers(); rr != nil {
+					for x, r := range *rr {
+						if r == ssa.Instruction(ph) {
+							*rr = append((*rr)[:x:x], (*rr)[x+1:]...)
+							break
+						}
+					}
+				}
+			}
+		}
+		drop.Preds = append(drop.Preds[:j:j], drop.Preds[j+1:]...)
+		b.Instrs = append(b.Instrs[:n-1:n-1], newJump(b))
+		b.Succs = []*ssa.BasicBlock{keep}
+		delete(domCache, fn)
+	}
 }
